@@ -249,3 +249,11 @@ class SimNode(RpcNode):
         entry['accepted'] = True
         entry['hash'] = h
         return h
+
+
+def disable_query_docstrings():
+    """Every RpcQuery object renders a help text for Jupyter in its constructor (`format_docstring`), which is 75% of the
+    cost of a fill()/autofill() against the simulated node.  The text never reaches a request; drivers that build millions
+    of queries stub the renderer.  Paths, parameters and dispatch of the real query classes are untouched."""
+    import pytezos.rpc.query as q
+    q.format_docstring = lambda class_type, query_path: ''
